@@ -570,6 +570,28 @@ Example C05_ex_oracle_rejects :
          (ObsOffset 1700000000000001000 1700000000000232830 1700000000000465661 1700000000000900000 (-101254)) = false.
 Proof. vm_compute. reflexivity. Qed.
 
+(* The timestamps that enter a reported offset are those of the header the authenticated payload
+   carries: t2 (and t1 unless the response is an interleaved one, and the receive timestamp kept for
+   interleaved mode) are fields of the NTP header at the start of the payload as parsed (over SCION:
+   udpLayer.Payload, the first Length-8 bytes behind the UDP header - never bytes appended behind the
+   UDP datagram), and with NTS exactly these header bytes lie inside the associated data that opened
+   under the server-to-client key *)
+Theorem C05_accept_timestamps_authenticated : forall open q evs i r,
+  recv_loop open q 0 0 evs = LAccept i r ->
+  exists g h, nth_error evs i = Some (EvDgram g) /\ ntp_decode (g_payload g) = Some h /\
+    r_t2 r = time_of_time64 (h_tx h) (q_ref q) /\
+    (is_interleaved q h = false -> r_t1 r = time_of_time64 (h_rx h) (q_ref q)) /\
+    r_srx r = h_rx h /\
+    (q_nts q = true ->
+       exists p pt, decode_packet (g_payload g) = Ok p /\ (48 <= p_pos p <= length (g_payload g))%nat /\
+         open (q_s2c q) (p_nonce p) (firstn (p_pos p) (g_payload g)) (p_ct p) = Some pt /\
+         let ad := firstn (p_pos p) (g_payload g) in
+         h_org h = {| t64_sec := be32 ad 24; t64_frac := be32 ad 28 |} /\
+         h_rx h = {| t64_sec := be32 ad 32; t64_frac := be32 ad 36 |} /\
+         h_tx h = {| t64_sec := be32 ad 40; t64_frac := be32 ad 44 |}).
+Proof. exact accept_timestamps_authenticated. Qed.
+Print Assumptions C05_accept_timestamps_authenticated.
+
 (* ------------------------------------------------------------------ *)
 (* "When NTS is enabled": enabled by configuration (auth_modes).        *)
 (* Model/AuthModes.v: the flags createClocks gives every client.        *)
